@@ -2,6 +2,7 @@
 package c07
 
 import (
+	"bytes"
 	"encoding/json"
 	"fmt"
 	"math"
@@ -28,6 +29,9 @@ type GCase struct {
 	G       model.G `json:"g"`
 	Default int     `json:"default"`
 	Route   int     `json:"route"`
+	// Poison: encodings that fail (a non-finite ordinate in a later member; a bbox of
+	// nothing) precede the calls under test; they must leave nothing behind.
+	Poison bool `json:"poison,omitempty"`
 }
 
 var jsonLayouts = []geom.Layout{geom.XY, geom.XYZ, geom.XYZM, geom.XYM, geom.Layout(5), geom.Layout(6), geom.Layout(7), geom.XY, geom.XYZ}
@@ -43,6 +47,7 @@ func genGCase(t *rapid.T) GCase {
 		G:       *genG(t, 3),
 		Default: int(rapid.SampledFrom([]geom.Layout{geom.XY, geom.XY, geom.XYZ}).Draw(t, "default")),
 		Route:   rapid.IntRange(0, int(model.NumRoutes)-1).Draw(t, "route"),
+		Poison:  rapid.IntRange(0, 3).Draw(t, "poison") == 0,
 	}
 }
 
@@ -120,12 +125,51 @@ func propG(c GCase) error {
 		if err != nil {
 			return fmt.Errorf("build: %v", err)
 		}
+		if c.Poison {
+			bad := geom.NewGeometryCollection()
+			if err := bad.Push(geom.NewPointFlat(geom.XY, []float64{1, 2}), geom.NewLineStringFlat(geom.XYZ, []float64{1, 2, 3, 4, math.Inf(1), 6})); err != nil {
+				return fmt.Errorf("harness: cannot build the unencodable collection: %v", err)
+			}
+			for _, opts := range [][]geojson.EncodeGeometryOption{nil, {geojson.EncodeGeometryWithMaxDecimalDigits(3)}, {geojson.EncodeGeometryWithBBox()}} {
+				var b []byte
+				var merr error
+				if err := run.Safe(func() error { b, merr = geojson.Marshal(bad, opts...); return nil }); err != nil {
+					return fmt.Errorf("geojson.Marshal of a collection with an infinite ordinate: %v", err)
+				}
+				if merr == nil && !json.Valid(b) {
+					return fmt.Errorf("geojson.Marshal of a collection with an infinite ordinate emitted invalid JSON without an error: %s", b)
+				}
+			}
+			// a bounding box of nothing: an error or valid JSON, never a panic
+			var b []byte
+			var merr error
+			if err := run.Safe(func() error {
+				b, merr = geojson.Marshal(geom.NewLineString(geom.XY), geojson.EncodeGeometryWithBBox())
+				return nil
+			}); err != nil {
+				return fmt.Errorf("geojson.Marshal of an empty line string with a bbox: %v", err)
+			}
+			if merr == nil && !json.Valid(b) {
+				return fmt.Errorf("geojson.Marshal of an empty line string with a bbox emitted invalid JSON without an error: %s", b)
+			}
+		}
 		data, err := geojson.Marshal(t)
 		if err != nil {
 			return fmt.Errorf("geojson.Marshal: %v", err)
 		}
 		if !json.Valid(data) {
 			return fmt.Errorf("Marshal emitted invalid JSON: %s", data)
+		}
+		// what Encode returned stays what it was across another encoding
+		kept, err := geojson.Encode(t)
+		if err != nil {
+			return fmt.Errorf("geojson.Encode: %v", err)
+		}
+		if _, err := geojson.Marshal(geom.NewLineStringFlat(geom.XY, []float64{123456.789, -98765.4321, 0.5, 1e-7}), geojson.EncodeGeometryWithBBox()); err != nil {
+			return fmt.Errorf("geojson.Marshal of an ordinary line string: %v", err)
+		}
+		if keptData, err := json.Marshal(kept); err != nil || !bytes.Equal(keptData, data) {
+			return fmt.Errorf("the *Geometry returned by geojson.Encode, marshalled after another encoding: %s, %v; Marshal gave %s", clip(string(keptData)), err, clip(string(data)))
 		}
 		// decoding is total on whatever was emitted
 		var back geom.T
